@@ -941,7 +941,7 @@ CONFIG["C12"] = dict(
 
 CONFIG["C17"] = dict(
     modules=["Mdns.Props.C17"],
-    model_files="Mdns/Model/Sched.lean, Mdns/Model/Cache.lean",
+    model_files="Mdns/Model/Client.lean, Mdns/Model/Sched.lean, Mdns/Model/Cache.lean",
     nontrivial=_sim_nontrivial,
     extra_evidence=_sim_extra,
     rule="histories on real daemon threads under the simulation seams, from VERIF_SEED (harness/src/c17.rs, scen.rs): three "
@@ -949,18 +949,24 @@ CONFIG["C17"] = dict(
          "TTLs 1..4500 s, cache-flush updates, goodbyes, letter-case variants of the host name on the caller and responder "
          "side, time-outs 1.5 s..200 s, verify requests), one quarter with real responder daemons (register / unregister / "
          "shutdown). Non-trivial = at least one packet and one client event. Distinct = distinct scripts.",
-    level_text="The monitor ok_C17 decides on every real history: each AddressesFound lists only addresses with a delivered, "
-               "still usable A/AAAA record for that host name (letter case ignored), tagged with the interface they arrived on; "
-               "each AddressesRemoved lists only addresses of which some record has run out; SearchStarted first, SearchTimeout "
-               "then SearchStopped at the deadline, no query afterwards (shared with C13); the A+AAAA back-off is C19's. Lean "
-               "theorems on the scheduler model: keyed by the lower-cased name (stop and time-out independent of letter case), "
-               "A and AAAA at once, no retransmission beyond the deadline, time-out contract; on the cache model: look-ups by "
-               "lower-cased name. Responder-free histories are predicted exactly by the scheduler model.",
+    level_text="On the client model (Client.iter, compared with the real daemon per iteration): hfound_sound / hremoved_sound over "
+               "whole histories from the fresh daemon, in terms of delivered records (each listed address from a delivered A/AAAA "
+               "record of exactly that owner name, on the interface it arrived on, for a resolve_hostname call on that channel, "
+               "letter case ignored; lifetime not over at the previous iteration / record ran out in this very iteration); "
+               "hfound_lists_all, hremoved_exact (cache-level exactness); hfound_complete(_first) (a new or revived address of a "
+               "searched host in a packet taken in is reported in that handle_response); resolve_starts_client, "
+               "resolve_first_rerun, resolve_rerun_open/closed, timeout_contract_client, timeout_only_when_due (A+AAAA at once, "
+               "doubling, cut at the deadline, SearchTimeout then SearchStopped); refresh_while_open, refresh_timer_armed. "
+               "'Unexpired at the instant of the event' is refuted on a late iteration (hfound_unexpired_full_false, witness "
+               "lateHistory). The monitor ok_C17 decides the same clauses on every real history from the delivered records; the "
+               "older theorems on the scheduler fragment are kept.",
     level_note="Trusted: Lean kernel; allowed axioms only; simulation seams; the address-event clauses are decided by an oracle "
                "computed from the delivered records (record identity includes the cache-flush bit, as in the daemon), not by a "
                "model prediction; the exact expiry millisecond of an address in AddressesFound is left open (statement masks it).",
-    partial=["address events (found/removed) have no model-level theorem yet: the client-side daemon model is under construction",
-             "refresh of addresses at 80 % is covered at record level by C11 (resolution_refresh_once), not observed here as a clause"],
+    partial=["hfound_unexpired_full is false of the model: get_addresses_for_host does not look at expiry times, so on a late iteration "
+             "(handle_response runs before the eviction of the same iteration) an address whose record ran out is still listed; "
+             "what holds without a timeliness assumption is hfound_sound (not over at the previous iteration)",
+             "completeness is a step contract (per handle_response), not an invariant over histories"],
     assumptions=["event receivers stay alive", "histories with verify requests are not judged for AddressesRemoved (verify shortens lifetimes)"],
 )
 
